@@ -67,7 +67,11 @@ let to_string v = let b = Buffer.create 256 in print b v; Buffer.contents b
    answered ERR (the runner counts that as "property not shown, model and implementation differ"). *)
 exception Case_timeout
 let case_limit = ref (try int_of_string (Sys.getenv "VERIF_MODEL_CASE_S") with _ -> 20)
-let () = Sys.set_signal Sys.sigalrm (Sys.Signal_handle (fun _ -> raise Case_timeout))
+(* the budget is CPU time of this process (ITIMER_VIRTUAL), not wall-clock time: on a loaded machine a case that needs
+   4 s of computation can take a minute of wall time, and a wall-clock alarm then fails correct cases *)
+let () = Sys.set_signal Sys.sigvtalrm (Sys.Signal_handle (fun _ -> raise Case_timeout))
+let set_budget (s : int) =
+  ignore (Unix.setitimer Unix.ITIMER_VIRTUAL { Unix.it_interval = 0.0; Unix.it_value = float_of_int s })
 
 let () =
   let out = Buffer.create 65536 in
@@ -78,7 +82,7 @@ let () =
         | [] | [""] -> Buffer.add_string out "ERR empty\n"
         | inp :: rest ->
           (try
-             ignore (Unix.alarm !case_limit);
+             set_budget !case_limit;
              let vi = parse inp in
              let m = run vi in
              (match rest with
@@ -97,9 +101,9 @@ let () =
            | Case_timeout ->
              (* an implementation that is broken in this way is usually broken on many cases: do not spend the
                 full budget on each of them *)
-             case_limit := max 1 (!case_limit / 2);
+             case_limit := max 4 (!case_limit / 2);
              Buffer.add_string out "ERR timeout\n");
-          ignore (Unix.alarm 0));
+          set_budget 0);
        if Buffer.length out > 60000 then begin print_string (Buffer.contents out); Buffer.clear out end
      done
    with End_of_file -> ());
